@@ -20,7 +20,14 @@ package harness
 //     consumed on the gas meter of the context it was given (trigRouter): the `used=` observation
 //     of a `begin` op, from which the model derives which action runs out of the trigger's gas and
 //     on which the checker judges "the actions' work stays within the prepaid gas";
-//   * block times and time-trigger times carry sub-second parts (`<sec>.<fraction>`).
+//   * block times and time-trigger times carry sub-second parts (`<sec>.<fraction>`);
+//   * transaction-event triggers request 0..4 attributes (distinct keys, one key twice with the same /
+//     different / no value) and most synthetic events are built FROM the request of a waiting trigger
+//     (trigGen.aimedEmit): the complete attribute set (shuffled, with extras and repeats), or a partial
+//     one — a requested attribute omitted or given another value while another requested attribute
+//     is carried two or more times (repeated key), only one attribute repeated as often as the
+//     request is long, no attributes at all, every value wrong, or another spelling of the type.
+//     Whether the trigger may be detected is judged by the checker on the events the block really had.
 
 import (
 	"errors"
@@ -701,10 +708,20 @@ type trigGen struct {
 	time    int64 // unix nanoseconds of the current block
 	fast    bool  // sub-second block intervals
 	acts    map[int][]string
-	nextID  int        // ids handed out so far + 1 (guess; only used to aim destroy/kill)
+	nextID  int // ids handed out so far + 1 (guess; only used to aim destroy/kill)
 	owners  map[int]string
 	bursts  int
 	poisons int
+	txWait  map[int]string // accepted transaction-event triggers believed waiting: id -> `name[:k=v&k=v]`
+	aimed   []trigAimed    // this block's events built from a waiting trigger's request
+}
+
+// trigAimed: one synthetic event of the current block aimed at trigger `id`; `full` = it carries every
+// requested attribute under the trigger's own spelling of the type.
+type trigAimed struct {
+	id   int
+	mode string
+	full bool
 }
 
 func (g *trigGen) name() string { return Pick(g.rng, trigNames) }
@@ -732,7 +749,11 @@ func (g *trigGen) event() string {
 			n = Pick(r, []string{"block-height", "Block-Time~", "block-time"})
 		}
 		var attrs []string
-		for i, na := 0, r.Intn(3); i < na; i++ {
+		na := r.Intn(3)
+		if r.Chance(40) {
+			na = 2 + r.Intn(3) // several requested attributes
+		}
+		for i := 0; i < na; i++ {
 			switch strings.ToLower(strings.Trim(n, "~")) {
 			case "transfer":
 				attrs = append(attrs, Pick(r, []string{"recipient=" + g.name(), "sender=" + g.name(), "amount=", "recipient=",
@@ -744,7 +765,7 @@ func (g *trigGen) event() string {
 			case "message":
 				attrs = append(attrs, Pick(r, []string{"sender=" + g.name(), "sender=", "action=x"}))
 			default:
-				attrs = append(attrs, Pick(r, []string{"k=1", "k=2", "k=", "j=1", "k=a~b"}))
+				attrs = append(attrs, Pick(r, []string{"k=1", "k=2", "k=", "j=1", "k=a~b", "j=", "m=", "m=x", "n=2"}))
 			}
 		}
 		if r.Chance(2) {
@@ -755,6 +776,131 @@ func (g *trigGen) event() string {
 		}
 		return "tx:" + n + ":" + strings.Join(attrs, "&")
 	}
+}
+
+var trigAttrVals = []string{"1", "2", "3", "x", "a~b", "A", "B", "C", "3vcoin", "5vcoin"}
+
+// aimedEmit builds a synthetic event from the request of a transaction-event trigger believed to
+// be waiting: `type:k=v&k=v` ("" when there is none).  The event carries the complete requested
+// attribute set or a partial one; attribute keys may repeat (the same attribute twice, or one key
+// with several values), requested attributes may be missing or carry another value.  Nothing here
+// decides whether the trigger may fire: the checker evaluates the documented condition on the
+// events of the block.
+func (g *trigGen) aimedEmit() string {
+	r := g.rng
+	var ids []int
+	for id := range g.txWait {
+		ids = append(ids, id)
+	}
+	if len(ids) == 0 {
+		return ""
+	}
+	sort.Ints(ids)
+	id := ids[len(ids)-1-r.Intn(minInt(len(ids), 5))]
+	p := strings.SplitN(g.txWait[id], ":", 2)
+	name := p[0]
+	var req []string
+	if len(p) > 1 {
+		req = strings.Split(p[1], "&")
+	}
+	// sat: an event attribute satisfying the requested one; wrong: its key with another value
+	sat := func(q string) string {
+		k, v, _ := strings.Cut(q, "=")
+		if v == "" {
+			v = Pick(r, trigAttrVals)
+		}
+		return k + "=" + v
+	}
+	wrong := func(q string) string {
+		k, v, _ := strings.Cut(q, "=")
+		for {
+			if w := Pick(r, trigAttrVals); w != v {
+				return k + "=" + w
+			}
+		}
+	}
+	var as []string
+	mode, full := "", false
+	switch k := r.Intn(100); {
+	case k < 28 || len(req) == 0:
+		mode, full = "complete", true
+		for _, q := range req {
+			as = append(as, sat(q))
+		}
+		if len(req) > 0 && r.Chance(45) {
+			mode = "complete+repeats"
+			for i, n := 0, 1+r.Intn(2); i < n; i++ {
+				if q := Pick(r, req); r.Chance(60) {
+					as = append(as, sat(q))
+				} else {
+					as = append(as, wrong(q))
+				}
+			}
+		}
+	case k < 78:
+		// one requested attribute is missing (or has another value) …
+		drop := r.Intn(len(req))
+		for i, q := range req {
+			switch {
+			case i != drop:
+				as = append(as, sat(q))
+			case r.Chance(45):
+				as = append(as, wrong(q))
+			}
+		}
+		mode = "one-unsatisfied"
+		// … while another requested attribute is carried several times
+		if len(as) > 0 && k < 64 {
+			mode = "one-unsatisfied+another-repeated"
+			if len(req) > 1 {
+				base := req[(drop+1+r.Intn(len(req)-1))%len(req)]
+				for i, n := 0, 1+r.Intn(3); i < n; i++ {
+					as = append(as, sat(base))
+				}
+			} else {
+				as = append(as, wrong(req[drop]), as[0])
+			}
+		}
+	case k < 88:
+		// only one requested attribute, as often as the request is long (or once more)
+		mode = "one-attribute-repeated"
+		q := Pick(r, req)
+		for i, n := 0, len(req)+r.Intn(2); i < n; i++ {
+			as = append(as, sat(q))
+		}
+		full = len(req) == 1
+	case k < 93:
+		mode = "no-attributes"
+	default:
+		mode = "every-value-wrong"
+		for _, q := range req {
+			as = append(as, wrong(q))
+		}
+	}
+	if r.Chance(30) {
+		as = append(as, Pick(r, []string{"z=1", "extra=", "k=9", "amount=1vcoin"}))
+	}
+	if r.Chance(50) {
+		for i := len(as) - 1; i > 0; i-- {
+			j := r.Intn(i + 1)
+			as[i], as[j] = as[j], as[i]
+		}
+	}
+	if r.Chance(10) {
+		// another spelling of the type: same listener bucket, not the requested event type
+		mode += ":respelled"
+		full = false
+		if up := strings.ToUpper(name); up != name && r.Bool() {
+			name = up
+		} else {
+			name += "~"
+		}
+	}
+	g.aimed = append(g.aimed, trigAimed{id: id, mode: mode, full: full})
+	if len(as) == 0 {
+		return name
+	}
+	return name + ":" + strings.Join(as, "&")
 }
 
 // timeEvent: a block-time trigger.  Times are full timestamps: most have a sub-second part, many
@@ -961,7 +1107,7 @@ func driveTrig(t *testing.T, rng *RNG, n int, out *Out) {
 		e.newHistory()
 		out.Comment(fmt.Sprintf("history %d", hi))
 		g := &trigGen{rng: rng, height: int64(10 + rng.Intn(50)), time: int64(1700000000+rng.Intn(100000)) * 1e9, nextID: 1,
-			owners: map[int]string{}, acts: map[int][]string{}, fast: rng.Chance(35)}
+			owners: map[int]string{}, acts: map[int][]string{}, fast: rng.Chance(35), txWait: map[int]string{}}
 		if rng.Chance(80) {
 			g.time += trigInt63n(rng, 1e9)
 		}
@@ -1028,6 +1174,7 @@ func driveTrig(t *testing.T, rng *RNG, n int, out *Out) {
 					out.Count("begin:stopped-by-gas-cap-with-more-queued")
 				}
 			}
+			g.aimed = nil
 			ntx := rng.Intn(5)
 			burst := rng.Chance(22)
 			if burst {
@@ -1061,6 +1208,13 @@ func driveTrig(t *testing.T, rng *RNG, n int, out *Out) {
 						}
 						if strings.Contains(op, "ev=tx:") {
 							out.Count("create:ok:tx")
+							spec := trigKV(strings.Fields(op), "ev")[3:]
+							g.txWait[id] = spec
+							na := 0
+							if q := strings.SplitN(spec, ":", 2); len(q) > 1 {
+								na = len(strings.Split(q[1], "&"))
+							}
+							out.Count(fmt.Sprintf("create:ok:tx:requested-attributes=%d", na))
 						} else if strings.Contains(op, "ev=h:") {
 							out.Count("create:ok:height")
 						} else {
@@ -1079,7 +1233,9 @@ func driveTrig(t *testing.T, rng *RNG, n int, out *Out) {
 					if rng.Chance(2) {
 						id = 0
 					}
-					emit(fmt.Sprintf("destroy %s %d", who, id))
+					if r := emit(fmt.Sprintf("destroy %s %d", who, id)); r == "ok" {
+						delete(g.txWait, id)
+					}
 				case k < 78:
 					amt := 1 + rng.Intn(6)
 					if rng.Chance(10) {
@@ -1088,8 +1244,20 @@ func driveTrig(t *testing.T, rng *RNG, n int, out *Out) {
 					emit(fmt.Sprintf("pay %s %s %d", g.name(), g.name(), amt))
 				default:
 					evs := []string{"ping:k=1", "ping:k=2", "ping:j=1&k=2", "ping:k=a~b", "ping", "PING~:k=1", "Transfer:recipient=" + g.name(),
-						"transfer:recipient=" + g.name() + "&sender=" + g.name() + "&amount=3vcoin", "message:sender=" + g.name(), "other:k=1"}
-					emit("emit " + Pick(rng, evs))
+						"transfer:recipient=" + g.name() + "&sender=" + g.name() + "&amount=3vcoin", "message:sender=" + g.name(), "other:k=1",
+						"ping:k=1&k=1", "ping:k=1&k=2&j=1", "ping:j=1&j=1&m=x", "ping:k=2&m=x&n=2&j=1",
+						"transfer:recipient=" + g.name() + "&recipient=" + g.name() + "&amount=3vcoin", "message:sender=" + g.name() + "&sender=" + g.name()}
+					ev := Pick(rng, evs)
+					if rng.Chance(65) {
+						if a := g.aimedEmit(); a != "" {
+							ev = a
+							out.Count("emit:built-from-a-waiting-request:" + g.aimed[len(g.aimed)-1].mode)
+						}
+					}
+					if trigRepeatsKey(ev) {
+						out.Count("emit:event-repeats-an-attribute-key")
+					}
+					emit("emit " + ev)
 				}
 				if rng.Chance(25) {
 					emit("dump")
@@ -1099,9 +1267,44 @@ func driveTrig(t *testing.T, rng *RNG, n int, out *Out) {
 			if strings.HasPrefix(r, "ok det=") && r != "ok det=-" {
 				out.Count(fmt.Sprintf("end:detected=%d", len(strings.Split(r[7:], ","))))
 			}
+			if strings.HasPrefix(r, "ok det=") {
+				det := map[int]bool{}
+				for _, d := range trigSplit(r[7:], ",") {
+					id, _ := strconv.Atoi(d)
+					det[id] = true
+					delete(g.txWait, id)
+				}
+				for _, a := range g.aimed {
+					kind, res := "partial-or-respelled-event", "not-detected"
+					if a.full {
+						kind = "complete-event"
+					}
+					if det[a.id] {
+						res = "detected"
+					}
+					out.Count("end:trigger-aimed-at-by-" + kind + ":" + res)
+				}
+			}
 			emit("dump")
 		}
 	}
+}
+
+// trigRepeatsKey: does the `type:k=v&k=v` event carry one attribute key more than once?
+func trigRepeatsKey(ev string) bool {
+	p := strings.SplitN(ev, ":", 2)
+	if len(p) < 2 {
+		return false
+	}
+	seen := map[string]bool{}
+	for _, kv := range strings.Split(p[1], "&") {
+		k, _, _ := strings.Cut(kv, "=")
+		if seen[k] {
+			return true
+		}
+		seen[k] = true
+	}
+	return false
 }
 
 // countTime: input distribution of accepted time triggers relative to the creating block's time.
@@ -1210,4 +1413,3 @@ func TestTrigPoisonFinalizeBlock(t *testing.T) {
 }
 
 func cmtHeader(h int64) cmtproto.Header { return cmtproto.Header{ChainID: ChainID, Height: h} }
-
